@@ -336,7 +336,7 @@ static void ComputeMacroStrings(PInputTag Tag) {
     /* recompute # of params */
 
     if (Tag->UsesNumArgs) {
-        as_snprintf(Tag->NumArgs, sizeof(Tag->NumArgs), "%" PRId32, Tag->ParCnt);
+        as_snprintf(Tag->NumArgs, sizeof(Tag->NumArgs), "%" PRId32, Tag->ParZ);
     }
 
     /* recompute 'all string' parameter */
@@ -471,10 +471,14 @@ Boolean MACRO_Processor(PInputTag PInp, as_dynstr_t* p_dest) {
 
     /* process parameters */
 
+    /* (after SHIFT, the list may hold fewer values than there are parameters) */
+
     Lauf = PInp->Params;
     for (z = 1; z <= PInp->ParCnt; z++) {
-        ExpandLine(Lauf->Content, z, p_dest);
-        Lauf = Lauf->Next;
+        ExpandLine(Lauf ? Lauf->Content : "", z, p_dest);
+        if (Lauf) {
+            Lauf = Lauf->Next;
+        }
     }
 
     /* process special parameters */
@@ -845,6 +849,7 @@ static void ExpandMacro(PMacroRec OneMacro) {
             }
         }
         Tag->ParCnt = OneMacro->ParamCount;
+        Tag->ParZ   = ArgCnt; /* number of arguments passed, what ARGCOUNT tells */
 
         /* 3. generate argument list */
 
@@ -1014,8 +1019,11 @@ static void ExpandSHIFT(void) {
         }
 
         if ((RunTag) && (RunTag->Params)) {
+            /* the parameters keep their positions, the values move up by one */
             GetAndCutStringList(&(RunTag->Params));
-            RunTag->ParCnt--;
+            if (RunTag->ParZ > 0) {
+                RunTag->ParZ--;
+            }
             ComputeMacroStrings(RunTag);
         }
     }
